@@ -22,9 +22,10 @@ import (
 // ---------------------------------------------------------------- C15: the regexp cache
 
 type rexpOp struct {
-	Via string `json:"via"` // Pattern | schema | patprops
+	Via string `json:"via"` // Pattern | schema | patprops | closed
 	P   string `json:"p"`
 	S   string `json:"s"`
+	P2  string `json:"p2,omitempty"` // closed: a second patternProperties key next to P, additionalProperties: false
 	// Fresh (C05): the concurrent run uses the equivalent pattern (?:P), which nothing has compiled yet, so that
 	// the cache is written while other goroutines read it (the sequential reference has cached P itself)
 	Fresh bool `json:"fresh,omitempty"`
@@ -63,6 +64,19 @@ func usePattern(op rexpOp) string {
 			return "invalid"
 		}
 		return "nomatch"
+	case "closed": // a closed object with two patternProperties: the member is allowed iff one of the two (valid) patterns matches its name
+		sch := fmt.Sprintf(`{"additionalProperties":false,"patternProperties":{%s:{},%s:{}}}`, mustJSON(op.P), mustJSON(op.P2))
+		if op.P == op.P2 {
+			sch = fmt.Sprintf(`{"additionalProperties":false,"patternProperties":{%s:{}}}`, mustJSON(op.P))
+		}
+		s, err := parseSchema([]byte(sch))
+		if err != nil {
+			return "undecodable"
+		}
+		if e := validate.AgainstSchema(s, map[string]interface{}{op.S: 1}, strfmt.Default); e == nil {
+			return "match"
+		}
+		return "nomatch"
 	default: // patternProperties: a matching member must be an integer, the member is a string
 		sch := fmt.Sprintf(`{"patternProperties":{%s:{"type":"integer"}}}`, mustJSON(op.P))
 		s, err := parseSchema([]byte(sch))
@@ -84,6 +98,14 @@ func usePattern(op rexpOp) string {
 func mustJSON(s string) string { b, _ := json.Marshal(s); return string(b) }
 
 func expectPattern(op rexpOp) string {
+	if op.Via == "closed" {
+		for _, p := range []string{op.P, op.P2} {
+			if re, err := regexp.Compile(p); err == nil && re.MatchString(op.S) {
+				return "match"
+			}
+		}
+		return "nomatch"
+	}
 	re, err := regexp.Compile(op.P) // a private, fresh compilation of that very pattern
 	if err != nil {
 		return "invalid"
@@ -111,6 +133,12 @@ func rexpRun(in *bufio.Scanner, out *bufio.Writer) {
 			pvalid[i] = err == nil
 		}
 		rec["pattern_valid"] = pvalid
+		pvalid2 := make([]bool, len(c.Ops))
+		for i, op := range c.Ops {
+			_, err := regexp.Compile(op.P2)
+			pvalid2[i] = err == nil
+		}
+		rec["pattern2_valid"] = pvalid2
 		var wrong []map[string]interface{}
 		var keyErrs []string
 		checkKeys := func() ([]string, bool) {
